@@ -254,8 +254,9 @@ Section Mixtures.
   Proof. intros HM L NN Np. apply Mixture_S_plain; [exact Np|]. apply Entropy_model_sum; assumption. Qed.
 End Mixtures.
 
-(* the property: S_mix - sum n_i S_i = - R sum n_i ln x_i *)
-Definition mix_entropy_statement (Rg : R) : Prop :=
+(* the property: S_mix - sum n_i S_i = - R sum n_i ln x_i   (the statement is displayed in Props.v as
+   mix_entropy_statement; this is the same proposition under an internal name) *)
+Definition mix_entropy_stmt (Rg : R) : Prop :=
   forall (models : list (phase -> option R -> option R -> pyv R)) Sex ss ph m T P,
     models_give (fun f => f ph T P) models ss -> length m = length ss -> all_nonneg m -> 0 < sumR m ->
     exists s, Mixture_S ROps false (IdealEntropyModel_call (mixenvR Rg) models) Sex ph (sparse_items ROps m) T P = Ok (Some s) /\
@@ -270,7 +271,7 @@ Proof.
   replace (1 / 2) with (/ 2) by lra. rewrite ln_Rinv by lra. lra.
 Qed.
 
-Lemma mix_entropy_refuted_lemma Rg : 0 < Rg -> ~ mix_entropy_statement Rg.
+Lemma mix_entropy_refuted_lemma Rg : 0 < Rg -> ~ mix_entropy_stmt Rg.
 Proof.
   intros HR ST.
   destruct (ST [const_model 0; const_model 0] no_excess [0; 0] Pl [1; 1] None None) as (s & Es & D).
@@ -296,7 +297,7 @@ Proof.
 Qed.
 
 (* the property: mixing at equal T and P never lowers S *)
-Definition mixing_never_lowers_S_statement (Rg : R) : Prop :=
+Definition mixing_never_lowers_S_stmt (Rg : R) : Prop :=
   forall (models : list (phase -> option R -> option R -> pyv R)) Sex ss ph m m' T P,
     models_give (fun f => f ph T P) models ss -> length m = length ss -> length m' = length ss ->
     all_nonneg m -> all_nonneg m' -> 0 < sumR m -> 0 < sumR m' ->
@@ -317,7 +318,7 @@ Proof.
   replace (1 / 1) with 1 by lra. rewrite ln_1. lra.
 Qed.
 
-Lemma mixing_never_lowers_S_refuted_lemma Rg : ~ mixing_never_lowers_S_statement Rg.
+Lemma mixing_never_lowers_S_refuted_lemma Rg : ~ mixing_never_lowers_S_stmt Rg.
 Proof.
   intros ST.
   destruct (ST [const_model 0; const_model 0] no_excess [0; 0] Pl [1; 0] [0; 1] None None)
